@@ -26,6 +26,8 @@ for d in sorted(os.listdir(os.path.join(root, 'seeded'))):
     m['needs_to_manifest'] = r[1]
     m['caught_note'] = r[2]
     m['caught_by'] = sorted(set(re.findall(r'\bC\d\d\b', r[2])))
+    if r[2].startswith('**not caught**') or 'not claimed' in r[2]:
+        m['caught_by'] = []
     m['patch'] = 'patch.ported.diff' if os.path.exists(os.path.join(root, 'seeded', d, 'patch.ported.diff')) else 'patch.diff'
     json.dump(m, open(mp, 'w'), indent=1)
     open(mp, 'a').write('\n')
